@@ -4,6 +4,7 @@ are queued on 1..4 streams at arbitrary moments relative to the sender's progres
 and the instants at which the sender takes a frame off the queue) and the frames written are compared with
 model/SendQueue.v.  Oracle: per-stream projection of the wire = concatenation of the fragment lists in queue order,
 and a real FrameFragmentCache fed the wire hands out exactly the queued frames per stream."""
+from harness import internals
 import asyncio
 
 from harness import frames as FR, sim
@@ -64,7 +65,7 @@ def run_history(script, size, lenreq):
             before = len(t.sent)
             t.permit(1)
             loop.settle()
-            if s._send_queue.empty() and len(t.sent) == before:
+            if internals.send_queue(s).empty() and len(t.sent) == before:
                 idle += 1
                 if idle >= 2:
                     break
